@@ -63,7 +63,64 @@ pub fn lanes() -> Vec<Lane> {
         rule: "seeded MUX scenarios (1-5 handles, 1-8 steps each); non-trivial = at least two operations were outstanding at the server at once; distinct = distinct history-shape hash (sequence of event kinds and actors, values abstracted)",
         quick: 200_000,
         thorough: 5_000_000,
+    },
+    Lane {
+        prop: "C10",
+        family: "STREAM",
+        gen: gen::gen_stream,
+        cfg: cfg_strict_stream,
+        check: oracle::check_c10,
+        nontrivial: stream_nontrivial,
+        rule: "seeded STREAM scenarios (1-2 clients, 1-3 searches each: direct / EntriesOnly / search(), 0-12 items of three kinds, call sequences of up to 16 next/finish/state calls incl. after the end and repeated finish, per-item timeouts in a quarter of the runs); non-trivial = at least one call was made on a stream outside the Active state or a stream was finished before its end; distinct = distinct history-shape hash",
+        quick: 150_000,
+        thorough: 4_000_000,
+    },
+    Lane {
+        prop: "C13",
+        family: "LEAK",
+        gen: gen::gen_leak,
+        cfg: cfg_default,
+        check: oracle::check_c13,
+        nontrivial: leak_nontrivial,
+        rule: "seeded LEAK scenarios (1-3 clients, 1-5 rounds of 1-5 lifecycles each: completed/failed single operations, timeouts with late replies, abandons of finished / timed-out / in-flight operations, search(), direct and adapted streams read to the end / finished early / finished twice / timed out, unsolicited traffic; a barrier and a table snapshot at quiescence after every round); non-trivial = a checkpoint was taken after at least three completed calls; distinct = distinct history-shape hash",
+        quick: 100_000,
+        thorough: 3_000_000,
     }]
+}
+
+fn leak_nontrivial(_sc: &Scenario, rr: &RunResult) -> bool {
+    // at least one checkpoint was taken while the driver was alive after >= 3 completed lifecycles
+    let mut rets = 0;
+    for e in &rr.hist {
+        match &e.kind {
+            EvKind::Return { .. } => rets += 1,
+            EvKind::Snapshot { .. } if rets >= 3 => return true,
+            _ => {}
+        }
+    }
+    false
+}
+
+fn cfg_strict_stream(_sc: &Scenario, c: &mut RunCfg) {
+    c.next_after_end = true;
+}
+
+fn stream_nontrivial(sc: &Scenario, rr: &RunResult) -> bool {
+    // a stream call after the end / after finish, or an early finish: visible as Item(None) returned twice,
+    // a Fin with code 88 or 80, or a State return
+    let mut nones = 0;
+    for e in &rr.hist {
+        if let EvKind::Return { ret, .. } = &e.kind {
+            match ret {
+                crate::world::Ret::Item(None) => nones += 1,
+                crate::world::Ret::Fin(r) if r.rc == 88 || r.rc == 80 => return true,
+                crate::world::Ret::Err(_) => return true,
+                _ => {}
+            }
+        }
+    }
+    let _ = sc;
+    nones >= 2
 }
 
 pub fn lanes_for(prop: &str) -> Vec<Lane> {
